@@ -20,7 +20,7 @@ func init() { register("C14", checkC14) }
 
 func checkC14(c *Ctx) {
 	r := c.R
-	r.Explanation = "Decides structural necessary conditions of C14; every construct is resolved by ROLE (types, dataflow, exported anchors), never by an unexported name. (1) Containers: the struct types behind the exported anchors cmap.NewMap, cmap.NewAtomic, cmap.AtomicValue and slice.New are found through the constructors; in each - searched through nested sub-structs of the package, by value, by pointer or embedded - the one sync.(RW)Mutex field guards every other field; a guarded map/slice handed as an argument to a visible callee or callback that writes it needs the write lock at the call. guard: every access to such a field in every function of the module happens with that mutex held (write mode for stores, map updates, delete, clear); helpers called with the lock held, deferred closures, and closures handed to a lock-taking helper as a callback inherit the caller's lockset. section: no method touches a state field in two critical sections (decided by a path analysis: no re-acquisition between two accesses; a call to a sibling that runs its own critical section counts as an access of the kind the sibling performs), or - the accepted double-checked idiom - the earlier sections only read and every write of a later section is preceded under the same acquisition by a re-read (possibly inside the sibling that writes). A method whose effect is split across lock releases, a writer under RLock, or an unlocked read cannot be linearizable. (2) ring ~ container/ring: per exported function of the reference (New and the methods of Ring) a layered decision: (a) the declaration and everything it reaches is AST-identical to $GOROOT/src/container/ring modulo generics and local names => OK; else (b) the two go/ssa functions are proved equivalent by relational symbolic execution - shared symbolic inputs and path condition, helpers executed in place on both sides, one store chain per field, canonical linear integer terms and comparisons (guard inversion, if/switch, early return, temporaries, operand order, n<=0 vs n<1, counted-loop variants, loop rotation, extracted/inlined helpers, renamed unexported fields/methods, captured variables all vanish), loops by induction over product cut points (loop-carried values get shared fresh symbols / base+d*k counters, the equalities are verified inductive) => OK; else (c) the normalised declaration (or a same-named unexported helper it reaches) is the reference's up to a small token edit (at most 12 tokens; link fields mapped through the field bijection, names of unexported helpers ignored) and is not proved equivalent => VIOLATION naming the edit; else (d) UNDECIDED for that function only. A concrete evaluator of the two SSA functions on small heaps exists only as a debugging aid (KC_C14_WITNESS=1 prints an example); it is off by default and never decides. The unexported link fields (also when grouped in a by-value sub-struct) are matched by the bijection of same-typed fields under which most functions are proved. (3) Buffered ring, bookkeeping necessary conditions with helpers followed (callee bodies as if inlined, parameters resolved through call sites, calls through function values with visible targets - locals, callback parameters, func-typed fields assigned in the package, method values - resolved; the roles are searched through sub-structs Buffered groups its state in): the head field is the *Ring field, the count field is what Len returns; AppendBack adds 1 to the count exactly once on every path, RemoveFront subtracts 1 exactly once and stores Next(head) (or Move(head,1)) into the head exactly once; Len returns the count; RemoveFront sets the slot it vacates - the Value of the node read from the head field BEFORE the head is advanced - to the zero value on every path (Front/RemoveFront return the head slot without testing the count, so the code relies on every slot outside the live window holding the zero value; clearing the node read after the advance, or not clearing on some path, is reported); every ring linked on growth is New(k) with k >= 1 for every value ever stored into the size field; the grow/shrink decisions read only the count, the live ring, fields written only during construction, or fields that are updated both where the ring is linked and where it is unlinked. NOT decided: linearizability as such (these are necessary, not sufficient, conditions); the buffered ring's FIFO/grow/shrink behaviour as model equivalence; ring functions that are neither proved equivalent nor a small edit of the reference."
+	r.Explanation = "Decides structural necessary conditions of C14; every construct is resolved by ROLE (types, dataflow, exported anchors), never by an unexported name. (1) Containers: the struct types behind the exported anchors cmap.NewMap, cmap.NewAtomic, cmap.AtomicValue and slice.New are found through the constructors; in each - searched through nested sub-structs of the package, by value, by pointer or embedded - the one sync.(RW)Mutex field guards every other field; a guarded map/slice handed as an argument to a visible callee or callback that writes it needs the write lock at the call. guard: every access to such a field in every function of the module happens with that mutex held (write mode for stores, map updates, delete, clear); helpers called with the lock held, deferred closures, and closures handed to a lock-taking helper as a callback inherit the caller's lockset. section: no method touches a state field in two critical sections (decided by a path analysis: no re-acquisition between two accesses; a call to a sibling that runs its own critical section counts as an access of the kind the sibling performs), or - the accepted double-checked idiom - the earlier sections only read and every write of a later section is preceded under the same acquisition by a re-read (possibly inside the sibling that writes). own-storage: no function stores into a guarded slice field a value that may share its backing array with a slice parameter of an exported function (a local tracer follows slicing, append bases, helper returns and the library alias models; Append copies, it does not adopt the caller's array). A method whose effect is split across lock releases, a writer under RLock, or an unlocked read cannot be linearizable. (2) ring ~ container/ring: per exported function of the reference (New and the methods of Ring) a layered decision: (a) the declaration and everything it reaches is AST-identical to $GOROOT/src/container/ring modulo generics and local names => OK; else (b) the two go/ssa functions are proved equivalent by relational symbolic execution - shared symbolic inputs and path condition, helpers executed in place on both sides, one store chain per field, canonical linear integer terms and comparisons (guard inversion, if/switch, early return, temporaries, operand order, n<=0 vs n<1, counted-loop variants, loop rotation, extracted/inlined helpers, renamed unexported fields/methods, captured variables all vanish), loops by induction over product cut points (loop-carried values get shared fresh symbols / base+d*k counters, the equalities are verified inductive) => OK; else (c) the normalised declaration (or a same-named unexported helper it reaches) is the reference's up to a small token edit (at most 12 tokens; link fields mapped through the field bijection, names of unexported helpers ignored) and is not proved equivalent => VIOLATION naming the edit; else (d) UNDECIDED for that function only. A concrete evaluator of the two SSA functions on small heaps exists only as a debugging aid (KC_C14_WITNESS=1 prints an example); it is off by default and never decides. The unexported link fields (also when grouped in a by-value sub-struct) are matched by the bijection of same-typed fields under which most functions are proved. (3) Buffered ring, bookkeeping necessary conditions with helpers followed (callee bodies as if inlined, parameters resolved through call sites, calls through function values with visible targets - locals, callback parameters, func-typed fields assigned in the package, method values - resolved; the roles are searched through sub-structs Buffered groups its state in): the head field is the *Ring field, the count field is what Len returns; AppendBack adds 1 to the count exactly once on every path, RemoveFront subtracts 1 exactly once and stores Next(head) (or Move(head,1)) into the head exactly once; Len returns the count; RemoveFront sets the slot it vacates - the Value of the node read from the head field BEFORE the head is advanced - to the zero value on every path (Front/RemoveFront return the head slot without testing the count, so the code relies on every slot outside the live window holding the zero value; clearing the node read after the advance, or not clearing on some path, is reported); some branch of Range (helpers, closures and returned iterator functions followed) depends on the count through integer operations alone - positions computed by Ring methods carry the count only modulo the ring length, so a Range steered only by them cannot tell a full from an empty ring; every ring linked on growth is New(k) with k >= 1 for every value ever stored into the size field; the grow/shrink decisions read only the count, the live ring, fields written only during construction, or fields that are updated both where the ring is linked and where it is unlinked. NOT decided: linearizability as such (these are necessary, not sufficient, conditions); the buffered ring's FIFO/grow/shrink behaviour as model equivalence; ring functions that are neither proved equivalent nor a small edit of the reference."
 	r.Assumptions = append(r.Assumptions,
 		"lock identity is (struct type, field): two instances of one type are not distinguished; adequate because each guarded field lives in the struct that owns the lock",
 		"interface-dispatched calls do not acquire or release the tracked locks",
@@ -31,6 +31,8 @@ func checkC14(c *Ctx) {
 	r.Rule("C14.section", "whole-effect: all accesses of a method lie in one critical section, or later write sections re-read first (double check)", 8)
 	r.Rule("C14.buffered-count", "Buffered: AppendBack counts one element in, RemoveFront one out and advances the head by exactly one; Len/Front read end / the head", 4)
 	r.Rule("C14.buffered-vacate", "Buffered: RemoveFront sets the slot it vacates (the Value of the head read before the advance) to the zero value on every path; Front/RemoveFront return the head slot without testing the count, so slots outside the live window must stay zero", 1)
+	r.Rule("C14.own-storage", "containers: no exported function stores into a guarded slice field a value that may share its backing array with one of its slice parameters (Append copies)", 1)
+	r.Rule("C14.buffered-range-count", "Buffered: some branch of Range depends on the count through integer operations alone, not only through ring positions (which carry it modulo the ring length)", 1)
 	r.Rule("C14.buffered-capacity", "Buffered: growth/shrink decisions use the live ring length, or a capacity field that is updated wherever the ring is linked AND unlinked; buffer size >= 1", 3)
 	r.Rule("C14.ring-iso", "every exported function of ring (New, the methods of Ring) behaves like its counterpart in $GOROOT/src/container/ring: AST-identical modulo generics, or proved equivalent on go/ssa by relational symbolic execution; a small token edit of the reference that is not proved equivalent is a VIOLATION, anything else UNDECIDED", 9)
 
@@ -64,6 +66,7 @@ func checkC14(c *Ctx) {
 		fs := c14FixtureSpecs(fp.ModPath)
 		CheckGuardedBy(fp, fe, fr, "guard", fs)
 		c14CheckSections(fp, fe, fr, "section", fs)
+		c14OwnStorage(fc, []GuardSpec{{Field: FieldID{fp.ModPath + ".bag", "items"}}}, fr)
 	})
 	c.Fixture("locks", func(fp *Prog, fr *Report) {
 		fe := NewLockEngine(fp)
@@ -122,6 +125,7 @@ func c14Containers(c *Ctx) {
 	n := CheckGuardedBy(c.P, e, tmp, "C14.guard", specs)
 	c14CheckSections(c.P, e, tmp, "C14.section", specs)
 	c14AliasWrites(c.P, e, tmp, "C14.guard", specs)
+	c14OwnStorage(c, specs, r)
 	c14Forward(r, tmp, unattr)
 	r.Stats["lock_operations_unattributed"] = unattr
 	r.Stats["guarded_accesses"] = n
